@@ -14,8 +14,10 @@ EXTENDS Unparse, Json
 
 CONSTANT MaxDepth
 
-Kinds == {"for", "fn", "partial", "cof", "blkown"}
-Modes == {"bind", "let"}
+Kinds == {"for", "fn", "partial", "cof", "cof2", "blkown"}
+\* bind: the construct itself binds x; let: it binds an unrelated name and its body lets x;
+\* bare: it binds nothing at all (function without parameters, partial / contentOf without data) and its body lets x
+Modes == {"bind", "let", "bare"}
 
 VARIABLES fs, res       \* frames: sequence of [k, m]
 vars == <<fs, res>>
@@ -32,7 +34,7 @@ Probe == <<Text(<<"[">>), Emit(Id("x")), Text(<<",">>), Emit(Id("t")), Text(<<"]
 ProbeAfter(j) == IF j <= Len(fs) THEN <<Text(<<"(">>), Emit(Id("x")), Emit(IfElse(Id(YN(j)), <<Text(<<"L">>)>>, <<Text(<<"-">>)>>)), Text(<<")">>)>> ELSE <<>>
 
 RECURSIVE Body(_), Construct(_)
-Body(i) == (IF fs[i].m = "let" THEN <<Let("x", Str(XV(i)))>> ELSE <<>>)
+Body(i) == (IF fs[i].m \in {"let", "bare"} THEN <<Let("x", Str(XV(i)))>> ELSE <<>>)
            \o <<Let(YN(i), Str(<<"y", D(i)>>))>> \o Probe
            \o (IF i < Len(fs) THEN Construct(i + 1) ELSE <<Text(<<"*">>)>>)
            \o ProbeAfter(i + 1)
@@ -41,12 +43,23 @@ Body(i) == (IF fs[i].m = "let" THEN <<Let("x", Str(XV(i)))>> ELSE <<>>)
 BN(i) == IF fs[i].m = "bind" THEN "x" ELSE "u"
 BV(i) == IF fs[i].m = "bind" THEN Str(XV(i)) ELSE Str(<<"u">>)
 
+Bare(i) == fs[i].m = "bare"
 Construct(i) ==
   CASE fs[i].k = "for"     -> <<Emit(For("", BN(i), Arr(<<BV(i)>>), Body(i)))>>
-    [] fs[i].k = "fn"      -> <<Let(FNm(i), FnLit(<<BN(i)>>, Body(i))), Emit(Call(FNm(i), <<BV(i)>>))>>
-    [] fs[i].k = "partial" -> <<Emit(Call("partial", <<Str(PN(i)), Hash(<<BN(i)>>, <<BV(i)>>)>>))>>
-    [] fs[i].k = "cof"     -> <<Code(CallB("contentFor", <<Str(CN(i))>>, Body(i))), Emit(Call("contentOf", <<Str(CN(i)), Hash(<<BN(i)>>, <<BV(i)>>)>>))>>
-    [] fs[i].k = "blkown"  -> <<Emit(CallB("blkown", <<Hash(<<BN(i)>>, <<BV(i)>>)>>, Body(i)))>>
+    [] fs[i].k = "fn"      -> IF Bare(i) THEN <<Let(FNm(i), FnLit(<<>>, Body(i))), Emit(Call(FNm(i), <<>>))>>
+                              ELSE <<Let(FNm(i), FnLit(<<BN(i)>>, Body(i))), Emit(Call(FNm(i), <<BV(i)>>))>>
+    [] fs[i].k = "partial" -> IF Bare(i) THEN <<Emit(Call("partial", <<Str(PN(i))>>))>>
+                              ELSE <<Emit(Call("partial", <<Str(PN(i)), Hash(<<BN(i)>>, <<BV(i)>>)>>))>>
+    [] fs[i].k = "cof"     -> <<Code(CallB("contentFor", <<Str(CN(i))>>, Body(i)))>> \o
+                              (IF Bare(i) THEN <<Emit(Call("contentOf", <<Str(CN(i))>>))>>
+                               ELSE <<Emit(Call("contentOf", <<Str(CN(i)), Hash(<<BN(i)>>, <<BV(i)>>)>>))>>)
+    \* the stored block rendered twice: with data, then without (the first call's names must be gone)
+    [] fs[i].k = "cof2"    -> <<Code(CallB("contentFor", <<Str(CN(i))>>, Body(i))),
+                                Emit(Call("contentOf", <<Str(CN(i)), Hash(<<BN(i), "w">>, <<BV(i), Str(<<"w">>)>>)>>)),
+                                Text(<<"/">>),
+                                Emit(Call("contentOf", <<Str(CN(i))>>)),
+                                Emit(IfElse(Id("w"), <<Text(<<"L">>)>>, <<Text(<<"-">>)>>))>>
+    [] fs[i].k = "blkown"  -> <<Emit(CallB("blkown", <<IF Bare(i) THEN Hash(<<>>, <<>>) ELSE Hash(<<BN(i)>>, <<BV(i)>>)>>, Body(i)))>>
 
 Prog == <<Let("x", Str(<<"x", "0">>)), Let("t", Str(<<"t", "0">>))>> \o Probe
         \o (IF Len(fs) >= 1 THEN Construct(1) ELSE <<>>) \o ProbeAfter(1) \o Probe
@@ -77,7 +90,7 @@ RECURSIVE Inside(_)
 ProbeText(i) == <<"[">> \o XV(i) \o <<",", "t", "0", "]">>
 AfterText(j) == IF j <= Len(fs) THEN <<"(">> \o XV(j - 1) \o <<"-", ")">> ELSE <<>>
 Inside(i) == ProbeText(i) \o (IF i < Len(fs) THEN Inside(i + 1) ELSE <<"*">>) \o AfterText(i + 1)
-ProbeTheorem == res.k = "out" => PiecesText(res.pieces) = ProbeText(0) \o Inside(1) \o AfterText(1) \o ProbeText(0)
+ProbeTheorem == (res.k = "out" /\ \A i \in 1..Len(fs) : fs[i].k # "cof2") => PiecesText(res.pieces) = ProbeText(0) \o Inside(1) \o AfterText(1) \o ProbeText(0)
 
 Expect(r) == CASE r.k = "out" -> [k |-> "out", pieces |-> r.pieces, log |-> r.log]
                [] r.k = "err" -> [k |-> "err", w |-> r.w, log |-> r.log]
